@@ -17,7 +17,7 @@
 
    Time is an integer tick = one second.  Coins are functions Denoms -> Int; the
    vesting pools use only VDenom, which is also the staking denomination. *)
-EXTENDS Integers, Sequences, FiniteSets, TLC, DecArith
+EXTENDS Integers, Sequences, FiniteSets, TLC, VestingMath
 
 CONSTANTS Addrs,        \* all addresses
           Setups,       \* initial set-ups (genesis): records, see Configure
@@ -53,11 +53,6 @@ VTNames == { vt.name : vt \in VTypes }
 VT(n) == CHOOSE vt \in VTypes : vt.name = n
 
 (* ---- x/auth ContinuousVestingAccount (sdk 0.46.10) ---- *)
-Vested1(ov, s, e, t) ==
-  IF t <= s THEN 0
-  ELSE IF t >= e THEN ov
-  ELSE RoundInt(DecMul(DecFromInt(ov), DecQuo(DecFromInt(t - s), DecFromInt(e - s))))
-Vesting1(ov, s, e, t) == ov - Vested1(ov, s, e, t)
 VestingC(a, t) == IF a.kind = "cv" THEN [d \in Denoms |-> Vesting1(a.ov[d], a.start, a.end, t)] ELSE ZeroC
 \* BaseVestingAccount.LockedCoinsFromVesting: vesting minus min(vesting, delegated vesting)
 LockedC(a, t) == [d \in Denoms |-> IF d = VDenom THEN Max(0, VestingC(a, t)[d] - a.dv) ELSE VestingC(a, t)[d]]
@@ -66,13 +61,7 @@ SpendableC(x, t) == SubC(bal[x], LockedC(acct[x], t))
 (* ---- UnlockUnbondedContinuousVestingAccountCoins: new original vesting after unlocking u ----
    the code divides with Dec.Quo (round half even at the 18th digit); "SplitQuoRounds" is that
    behaviour, the reference truncates (see DESIGN.md, F9) *)
-SplitOV(ov, s, e, t, u) ==
-  IF u = 0 THEN ov
-  ELSE LET vg == Vesting1(ov, s, e, t)
-           prod == DecMul(DecFromInt(u), DecFromInt(ov))
-           q == IF "SplitQuoRounds" \in Quirks THEN DecQuo(prod, DecFromInt(vg)) ELSE DecQuoTrunc(prod, DecFromInt(vg))
-           ov1 == ov - TruncInt(q)
-       IN IF vg - Vesting1(ov1, s, e, t) < u THEN ov1 - 1 ELSE ov1
+SplitOV(ov, s, e, t, u) == SplitOVq(ov, s, e, t, u, "SplitQuoRounds" \in Quirks)
 
 (* ---- pools ---- *)
 PoolLocked(p) == p.init - p.sent - p.withdrawn
@@ -117,7 +106,6 @@ DoWithdraw(o) ==
               [paid |-> w.paid, events |-> w.events])
 
 \* account created out of a pool: keeper.newVestingAccount
-NewOV(amt, free) == TruncInt(DecFromInt(amt) - DecMul(DecFromInt(amt), free))
 
 \* MsgSendToVestingAccount(owner, to, pool name, amount, restart vesting)
 DoSend(o, to, n, amt, restart) ==
